@@ -86,7 +86,7 @@ def rule_segments(ctx):
             raise AnchorError("%s decoder: expected one Iterator::next loop" % comp, key)
         h, (nb, it, npath) = next(iter(loops.items()))
         item = models._region(("some", ("call", npath, (it,), nb)))
-        ctx.ob("GRAMMAR", "%s: trim '/', split '/'" % comp, item == faults.SEG, fn=key, site=body.site(nb), detail=show_region(item))
+        ctx.ob("GRAMMAR", "%s: segments = split('/') of the region (ends trimmed or empty segments skipped)" % comp, item == faults.SEG, fn=key, site=body.site(nb), detail=show_region(item))
         # skip set and decode, read off the append
         apps = []
         for e in bs["effects"]:
